@@ -9,7 +9,7 @@ from ..cfg import cfg_of, handler_names
 from ..effprops import engine
 from ..index import AnalysisError, function_stmts, parent, walk_no_nested
 from ..roles import schema_backend_classes
-from ..util import callee_last, calls_in, enclosing_stmt, kw, names_in, path_condition, show_condition, txt
+from ..util import callee_last, calls_in, enclosing_stmt, ifexp_chain, kw, names_in, path_condition, resolve_local, show_condition, txt
 
 EXPLANATION = (
     "Static analysis of the error plumbing (CFG must-pass-through, handler census, raise-sets over the resolved call "
@@ -275,17 +275,39 @@ def r5_counts(ctx):
         ok = final is not None and "reason_code" in txt(final.target) and isinstance(parent(final), ast.For) and "collected_errors" in txt(parent(final).iter)
         ctx.ob("R5", f, "error_counts: one increment per collected error keyed by reason code", ok,
                f"`{txt(final)}` inside `for ... in {txt(parent(final).iter)}`" if ok else "error counts are not one-per-collected-error")
-    # check identifier chains
+    # check identifier chains: the value reported under "check" in the failure-case metadata
     for q in ("pandera/backends/pandas/error_formatters.py::consolidate_failure_cases",
               "pandera/backends/polars/base.py::PolarsSchemaBackend.failure_cases_metadata"):
         f = ix.func(q)
-        for s in function_stmts(f):
-            if isinstance(s, ast.Assign) and txt(s.targets[0]) == "check_identifier":
-                forms[q] = txt(s.value)
+        ctx.touched(f)
+        sinks = []
+        for n in walk_no_nested(f.node):
+            if isinstance(n, ast.Dict):
+                for k, v in zip(n.keys, n.values):
+                    if isinstance(k, ast.Constant) and k.value == "check":
+                        sinks.append(v)
+            elif isinstance(n, ast.Call):
+                v = kw(n, "check")
+                if v is not None and callee_last(n) in ("with_columns", "assign"):
+                    sinks.append(v)
+                if callee_last(n) == "append" and isinstance(n.func.value, ast.Subscript) and \
+                        isinstance(n.func.value.slice, ast.Constant) and n.func.value.slice.value == "check" and n.args:
+                    sinks.append(n.args[0])
+        loopvars = {l.target.id: "_err" for l in walk_no_nested(f.node) if isinstance(l, ast.For) and isinstance(l.target, ast.Name)
+                    and "schema_errors" in txt(l.iter)}
+        chains = set()
+        for v in sinks:
+            while isinstance(v, ast.Call) and callee_last(v) == "lit" and v.args:
+                v = v.args[0]
+            v = resolve_local(f.node, v)
+            chains.add(tuple(ifexp_chain(v, loopvars)))
+        if not chains:
+            raise AnalysisError(f"{q}: no value flows into the 'check' field of the failure cases")
+        forms[q] = chains
     vals = list(forms.values())
-    ok = len(vals) == 2 and vals[0] == vals[1]
+    ok = len(vals) == 2 and len(vals[0]) == 1 and vals[0] == vals[1]
     ctx.ob("R5", "pandera/backends", "check identifier derived by the same chain in pandas and polars reports", ok,
-           "identical expressions" if ok else f"{forms}")
+           "identical decision chains" if ok else f"{ {k.split('::')[-1]: sorted(v) for k, v in forms.items()} }")
 
 
 def r6_fences(ctx):
